@@ -65,7 +65,7 @@ def die_descriptions(W, H, kmax):
     if kmax >= 2:
         for a, b in itertools.combinations(rects, 2):
             if xinter(tuple(map(F, a)), tuple(map(F, b))) is None:
-                for ka, kb in (('#', 'dsp'), ('dsp', 'fixed'), ('fixed', '#'), ('dsp', 'bram')):
+                for ka, kb in (('#', 'dsp'), ('dsp', 'fixed'), ('fixed', '#'), ('dsp', 'BRAM')):   # ('BRAM' < '_' < 'dsp' in the order of the characters)
                     out.append([(a, ka), (b, kb)])
     return out
 
@@ -117,7 +117,9 @@ def build_die(fam, W, H, items):
     from frame.netlist.netlist import Netlist
     fx, fy = AX[fam]
     tree = {'width': num(fx(W)), 'height': num(fy(H))}
-    regs = [vec(ex_of(fam, tuple(r)), k) for r, k in items if k != 'fixed']
+    # (a second specialised region gets an upper-case tag: 'BRAM' < '_' < 'dsp' in the order of the characters)
+    tags = iter(['dsp', 'BRAM', 'dsp2'])
+    regs = [vec(ex_of(fam, tuple(r)), (next(tags) if k == 'dsp' else k)) for r, k in items if k != 'fixed']
     if regs:
         tree['regions'] = regs
     fixed = [ex_of(fam, tuple(r)) for r, k in items if k == 'fixed']
@@ -309,7 +311,7 @@ def run_shard(shard, tier, res):
                     check_case(dict(kind='split', fam=fam, W=W, H=H, items=[[list(a), k] for a, k in items], r=r, n=n), res)
         res.samples.append(dict(kind='split', fam=fam, W=W, H=H, items=[[list(a), k] for a, k in descs[-1]], r=1.5, n=5))
     elif shard['kind'] == 'grid':
-        for (w, h) in ((4, 4), (6, 3), (1, 1), (10.5, 2.5), (0.3, 0.7)):
+        for (w, h) in ((4, 4), (6, 3), (1, 1), (10.5, 2.5), (0.3, 0.7), (1e-6, 1e-6), (3e-7, 2e-7), (2e5, 1e5 + 0.3)):
             for rows in range(1, 6):
                 for cols in range(1, 6):
                     if rows + cols == 2:
